@@ -108,6 +108,18 @@ T.update({
  "C16-6": (["C16"], "first missed; caught after a fifth of the cases named their modules by paths that share the last component (geom/util, color/util, util, a/b/lib, a/lib)", "two distinct imported modules whose names have the same last path component"),
 })
 
+# round 4 (after the aggregate / member / stored-module legs were added)
+T.update({
+ "C10-5": (["C10"], "", "two-parameter overloads each needing exactly one conversion for the call, one of them a float -> int narrowing: f(int,int) / f(float,float) called with (float,int)"),
+ "C10-6": (["C10"], "", "the calling function declared before at least one overload of the callee"),
+ "C12-5": (["C12"], "", "a nested scope declares x, then the enclosing scope declares x, then a later nested scope declares x again (for (int i..) {} int i; for (int i..) {})"),
+ "C12-6": (["C12"], "", "a declaration as an un-braced if / else branch and a later use or redeclaration of that name in the enclosing block"),
+ "C13-5": (["C13"], "", "two swizzles with the same mask text in one module, the first on a vector wide enough, a later one on a narrower vector or a scalar"),
+ "C13-6": (["C13"], "", "an out-of-range constant index followed, in visit order, by an in-range constant index (a[0][3] on int[2][3]; a bad access then a good one)"),
+ "C17-5": (["C17"], "", "optimize on; the optimiser removed a value registered before a basic block that a branch targets; the module stored and loaded"),
+ "C17-6": (["C17"], "", "a stored program that uses uint (listing differs; values differ for a negative value cast to uint at run time)"),
+})
+
 for sid, (caught, note, needs) in sorted(T.items()):
     d = os.path.join(ROOT, sid)
     notes = open(os.path.join(d, "notes.md")).read()
